@@ -32,10 +32,12 @@ import (
 	"github.com/cespare/xxhash"
 	"github.com/siglens/siglens/pkg/ast/pipesearch"
 	"github.com/siglens/siglens/pkg/config"
+	"github.com/siglens/siglens/pkg/hooks"
 	eswriter "github.com/siglens/siglens/pkg/es/writer"
 	"github.com/siglens/siglens/pkg/integrations/prometheus/promql"
 	"github.com/siglens/siglens/pkg/segment"
 	"github.com/siglens/siglens/pkg/segment/memory/limit"
+	segmetadata "github.com/siglens/siglens/pkg/segment/metadata"
 	"github.com/siglens/siglens/pkg/segment/query"
 	sutils "github.com/siglens/siglens/pkg/segment/utils"
 	"github.com/siglens/siglens/pkg/segment/writer"
@@ -198,9 +200,35 @@ func workerMain(dir, scriptPath, outPath string) {
 		fmt.Fprintln(os.Stderr, err)
 		os.Exit(3)
 	}
+	// multi-tenant node: the deployment's id hook lists every organisation (start-up recovery, table pre-load and the
+	// refresh loops go by GetMyIds)
+	if len(ops) > 0 && ops[0].Kind == "myids" {
+		ids := make([]int64, 0, len(ops[0].Ids))
+		for _, x := range ops[0].Ids {
+			ids = append(ids, int64(x))
+		}
+		hooks.GlobalHooks.GetIdsConditionHook = func() (bool, []int64) { return true, ids }
+	}
 	if err := initNode(dir); err != nil {
 		fmt.Fprintln(os.Stderr, "init:", err)
 		os.Exit(4)
+	}
+	if len(ops) > 0 && ops[0].Kind == "myids" && ops[0].Al == "after_crash" {
+		// segments that have a .sfm but no line in segmeta.json are adopted by a goroutine started in InitQueryNode
+		// (initSyncSegMetaForAllIds): wait until every segment with a .sfm on disk is in the in-memory metadata
+		for k := 0; k < 150; k++ {
+			n := 0
+			_ = filepath.Walk(dir, func(p string, info os.FileInfo, err error) error {
+				if err == nil && !info.IsDir() && strings.HasSuffix(p, ".sfm") {
+					n++
+				}
+				return nil
+			})
+			if len(segmetadata.GetAllSegKeys()) >= n {
+				break
+			}
+			time.Sleep(100 * time.Millisecond)
+		}
 	}
 	obs := make([]Obs, len(ops))
 	zero := time.Duration(0)
@@ -281,6 +309,7 @@ func workerMain(dir, scriptPath, outPath string) {
 			if err := vtable.AddVirtualTable(&op.Idx, op.Org); err != nil {
 				obs[i].Err = err.Error()
 			}
+		case "myids":
 		case "shutdown":
 			// the data-related part of ShutdownSiglensServer
 			writer.ForcedFlushToSegfile()
@@ -394,16 +423,36 @@ func runScenario(dir string, ops []Op) ([]Obs, error) {
 	all := make([]Obs, len(ops))
 	start := 0
 	phase := 0
+	// "crash" = unclean death: the worker simply ends (os.Exit) without the shutdown sequence; nothing is rotated, no
+	// alias map is flushed.  A scenario with a crash runs on a multi-tenant node (id hook = the crash op's Ids) in every phase.
+	var myids []int
+	for _, o := range ops {
+		if o.Kind == "crash" {
+			myids = o.Ids
+			break
+		}
+	}
+	afterCrash := false
 	for start <= len(ops) {
 		end := start
-		for end < len(ops) && ops[end].Kind != "restart" {
+		for end < len(ops) && ops[end].Kind != "restart" && ops[end].Kind != "crash" {
 			end++
 		}
 		if end > start {
 			sp := filepath.Join(dir, fmt.Sprintf("script%d.json", phase))
 			op := filepath.Join(dir, fmt.Sprintf("obs%d.json", phase))
-			phaseOps := append([]Op{}, ops[start:end]...)
-			if end < len(ops) {
+			var phaseOps []Op
+			off := 0
+			if myids != nil {
+				al := ""
+				if afterCrash {
+					al = "after_crash"
+				}
+				phaseOps = append(phaseOps, Op{Kind: "myids", Ids: myids, Al: al})
+				off = 1
+			}
+			phaseOps = append(phaseOps, ops[start:end]...)
+			if end < len(ops) && ops[end].Kind == "restart" {
 				phaseOps = append(phaseOps, Op{Kind: "shutdown"})
 			}
 			b, _ := json.Marshal(phaseOps)
@@ -427,8 +476,9 @@ func runScenario(dir string, ops []Op) ([]Obs, error) {
 			if err := json.Unmarshal(ob, &o); err != nil || len(o) != len(phaseOps) {
 				return nil, fmt.Errorf("worker phase %d: bad observation file", phase)
 			}
-			copy(all[start:end], o[:end-start])
+			copy(all[start:end], o[off:off+end-start])
 		}
+		afterCrash = end < len(ops) && ops[end].Kind == "crash"
 		phase++
 		start = end + 1
 	}
@@ -471,6 +521,7 @@ type spec struct {
 	delPhase  map[int64]map[string]bool // deleted since the last restart
 	recreated map[int64]map[string]bool // ingested again after a delete in the same process
 	restarted bool
+	crashed   bool // an unclean death + start-up recovery lies behind this point
 	unrot     map[int64]map[string]bool            // has flushed-but-unrotated data
 	zombies   map[int]bool                         // events of an index that was deleted, re-created and deleted again in one process
 	aliasEver map[int64]map[string]map[string]bool // alias -> indexes it ever pointed to
@@ -631,6 +682,7 @@ type opCtx struct {
 	noSnap     bool            // delete without before/after snapshots (streams with other org sets)
 	hadOpen    map[string]bool // index of the org was deleted while it had unrotated data (stale columns until restart: known finding)
 	complete   bool            // the completeness side of the oracle applies to this op
+	crashed    bool            // the op runs after an unclean death + start-up recovery
 }
 
 type gen struct {
@@ -659,6 +711,7 @@ func (g *gen) ctxFor(X int64, expr string) *opCtx {
 		c.hadOpen[t] = v
 	}
 	c.complete = g.complete && (!g.s.restarted || g.completePost)
+	c.crashed = g.s.crashed
 	for id, l := range g.s.live {
 		c.liveBefore[id] = l
 	}
@@ -846,6 +899,24 @@ func (g *gen) restart() {
 	g.rotate0()
 	g.emit(Op{Kind: "restart"}, nil)
 	g.s.restarted = true
+	for _, o := range allOrgs {
+		g.s.delPhase[o] = map[string]bool{}
+		g.s.recreated[o] = map[string]bool{}
+		g.s.hadOpen[o] = map[string]bool{}
+	}
+}
+
+// unclean death (no shutdown sequence: open segments stay open, only their .sfm describes them) + start on the
+// same directory as a multi-tenant node: the start-up recovery rebuilds the open segments of every org from disk
+func (g *gen) crash() {
+	g.rotate0()
+	ids := make([]int, 0, len(allOrgs))
+	for _, o := range allOrgs {
+		ids = append(ids, int(o))
+	}
+	g.emit(Op{Kind: "crash", Ids: ids}, nil)
+	g.s.restarted = true
+	g.s.crashed = true
 	for _, o := range allOrgs {
 		g.s.delPhase[o] = map[string]bool{}
 		g.s.recreated[o] = map[string]bool{}
@@ -1361,6 +1432,88 @@ func genDigitOrgs(r *vhlib.Rng) (*scenario, *spec) {
 	return g.sc, g.s
 }
 
+// crash-recovery stream: tenant ownership across an unclean death.  Several orgs (0 and multi-digit ones) flush into
+// open segments of indexes with the SAME names (and names only one of them has), some segments are rotated, the node
+// dies without the shutdown sequence and restarts as a multi-tenant node; every org must then see exactly its own
+// data under every query form (two-sided oracle), also after further ingests and a second crash or a graceful restart.
+var crashNames = []string{"a", "ab", "a-b", "logs", "2logs", "x"}
+var crashWild = []string{"*", "a*", "*b", "*logs", "a*b", "*x", "l*", "2*"}
+
+func (g *gen) crashSweep(os_ []int64) {
+	r := g.r
+	for _, o := range os_ {
+		for _, n := range crashNames {
+			if g.s.tables[o][n] || r.Chance(50) {
+				g.query(vhlib.Pick(r, []string{"q_search", "q_stats", "q_spl"}), o, n)
+			}
+			if r.Chance(25) {
+				g.query("q_cols", o, n)
+			}
+		}
+		g.query(vhlib.Pick(r, []string{"q_search", "q_stats"}), o, "*")
+		g.query(vhlib.Pick(r, qKinds), o, vhlib.Pick(r, crashWild))
+		g.query("q_cols", o, "*")
+		g.query("q_spl", o, strings.Join(crashNames, ","))
+		g.emit(Op{Kind: "q_list", Org: o}, g.ctxFor(o, "*"))
+	}
+}
+
+func genCrash(r *vhlib.Rng) (*scenario, *spec) {
+	g := &gen{r: r, s: newSpec(), sc: &scenario{Stream: "crash_recovery"}, complete: true, completePost: true, noSnap: true}
+	// org 0 + 2..3 other orgs
+	pool := []int64{1, 2, 7, 12, 73, 123}
+	os_ := []int64{0}
+	for len(os_) < 3+r.Intn(2) {
+		o := vhlib.Pick(r, pool)
+		dup := false
+		for _, x := range os_ {
+			dup = dup || x == o
+		}
+		if !dup {
+			os_ = append(os_, o)
+		}
+	}
+	shared := vhlib.Pick(r, crashNames) // every org of the scenario (except, half of the time, org 0) has an index of this name
+	phase := func(n int) {
+		for _, o := range os_ {
+			if o != 0 || r.Bool() {
+				g.ingest(o, shared, r.Range(1, 2))
+			}
+		}
+		for i := 0; i < n; i++ {
+			X := vhlib.Pick(r, os_)
+			switch w := r.Intn(100); {
+			case w < 55:
+				g.ingest(X, vhlib.Pick(r, crashNames), r.Range(1, 3))
+			case w < 70:
+				g.rotate()
+				// data flushed into the NEXT open segment of an index that already has rotated ones
+				g.ingest(vhlib.Pick(r, os_[1:]), shared, 1)
+			case w < 90:
+				g.query(vhlib.Pick(r, qKinds), X, vhlib.Pick(r, append(append([]string{}, crashNames...), crashWild...)))
+			default:
+				g.emit(Op{Kind: "q_list", Org: X}, g.ctxFor(X, "*"))
+			}
+		}
+	}
+	phase(r.Range(6, 12))
+	g.crashSweep(os_) // the view before the death
+	g.crash()
+	g.crashSweep(os_)
+	phase(r.Range(3, 6)) // later ingests go to new segments next to the recovered ones
+	g.crashSweep(os_[1:])
+	switch r.Intn(3) {
+	case 0:
+		g.crash()
+	case 1:
+		g.restart()
+	default:
+		return g.sc, g.s
+	}
+	g.crashSweep(os_)
+	return g.sc, g.s
+}
+
 // metrics stream: same metric names in all orgs; oracle only (the metrics store is not part of the Coq model)
 var metricNames = []string{"cpu", "mem", "cpu_total"}
 
@@ -1592,6 +1745,8 @@ func evalScenario(sum *vhlib.Summary, mu *sync.Mutex, si int, sc *scenario, obs 
 						}
 					}
 					switch {
+					case c.crashed && !c.viaCurOnly[et]:
+						cl = "own_data_missing_after_unclean_restart"
 					case metaTerm:
 						cl = "index_pattern_regex_metachar"
 					case c.viaCurOnly[et] && c.restarted && op.Org == 0:
@@ -1731,6 +1886,44 @@ func coqOp(op Op) string {
 	return "Rotate"
 }
 
+// ops of the crash-recovery model (TenantCrash.v)
+func coqCrashOp(op Op) string {
+	my := func() string {
+		var ids []string
+		for _, id := range op.Ids {
+			ids = append(ids, strconv.Itoa(id))
+		}
+		return vhlib.CoqList(ids)
+	}
+	switch op.Kind {
+	case "ingest":
+		var ids []string
+		for _, id := range op.Ids {
+			ids = append(ids, strconv.Itoa(id))
+		}
+		return fmt.Sprintf("CIngest %d %s %s", op.Org, vhlib.CoqStr(op.Idx), vhlib.CoqList(ids))
+	case "create":
+		return fmt.Sprintf("CCreate %d %s", op.Org, vhlib.CoqStr(op.Idx))
+	case "rotate":
+		return "CRotate"
+	case "crash":
+		return "CCrash " + my()
+	case "restart": // the scenario's node is multi-tenant in every phase (runScenario)
+		var ids []string
+		for _, o := range allOrgs {
+			ids = append(ids, strconv.FormatInt(o, 10))
+		}
+		return "CRestart " + vhlib.CoqList(ids)
+	case "q_search", "q_stats", "q_spl":
+		return fmt.Sprintf("CSearch %d %s", op.Org, vhlib.CoqStr(op.Expr))
+	case "q_cols":
+		return fmt.Sprintf("CCols %d %s", op.Org, vhlib.CoqStr(op.Expr))
+	case "q_list":
+		return fmt.Sprintf("CList %d", op.Org)
+	}
+	return "CRotate"
+}
+
 func coqObs(op Op, o Obs, g *spec) string {
 	switch op.Kind {
 	case "delete":
@@ -1834,6 +2027,7 @@ func main() {
 	mk(wrap(genMatcher), 2)
 	mk(wrap(genMultiSegDelete), nKnown+2)
 	mk(wrap(genDigitOrgs), 2*nKnown)
+	mk(wrap(genCrash), nKnown+1)
 
 	// run
 	par := 6
@@ -1869,6 +2063,18 @@ func main() {
 		cases, ncases = nil, 0
 		shard++
 	}
+	var crashCases []string
+	nCrash, crashShard := 0, 0
+	flushCrash := func() {
+		if len(crashCases) == 0 {
+			return
+		}
+		defs := "Definition cases : list (list cop * list out) := " + vhlib.CoqListNL(crashCases) + ".\n"
+		sum.WriteCaseFile(cfg.Out, fmt.Sprintf("cases_c13_crash_%d", crashShard), "From SigM Require Import Base Tenant TenantCrash TenantCheck.\n",
+			defs, "check_crash_runs cases 0", nCrash)
+		crashCases, nCrash = nil, 0
+		crashShard++
+	}
 	for i, j := range jobs {
 		if j.err != nil {
 			sum.HarnessError(fmt.Sprintf("scenario %d (%s): %v", i, j.sc.Stream, j.err))
@@ -1876,6 +2082,24 @@ func main() {
 		}
 		evalScenario(sum, &mu, i, j.sc, j.obs, j.g, j.g.zombies)
 		if j.sc.Stream == "metrics" {
+			continue
+		}
+		if j.sc.Stream == "crash_recovery" {
+			// own model (TenantCrash.v: on-disk segment records, start-up recovery), own case file
+			var cs, bs []string
+			for k, op := range j.sc.Ops {
+				cs = append(cs, coqCrashOp(op))
+				bs = append(bs, coqObs(op, j.obs[k], j.g))
+				switch op.Kind {
+				case "q_search", "q_stats", "q_spl", "q_cols", "q_list":
+					nCrash++
+				}
+			}
+			crashCases = append(crashCases, "("+vhlib.CoqList(cs)+",\n   "+vhlib.CoqList(bs)+")")
+			sum.Sample(map[string]interface{}{"stream": j.sc.Stream, "ops": len(j.sc.Ops), "first_ops": j.sc.Ops[:min(6, len(j.sc.Ops))]})
+			if len(crashCases) >= 20 {
+				flushCrash()
+			}
 			continue
 		}
 		var os_, bs []string
@@ -1896,6 +2120,7 @@ func main() {
 		}
 	}
 	flush()
+	flushCrash()
 
 	// documentation check: the PRE-FIX matcher model (rx_matcher) against Go regexp on the pre-fix translation,
 	// and the glob specification against the harness' glob.  The matcher of the code under test is observed
